@@ -92,7 +92,7 @@ def generate(tier, seed, casedir, variant):
     per_kind = 8 if tier == "quick" else 40
     for kind in KINDS:
         for j in range(per_kind):
-            c = rand_cfg(rng, kind, small_store=(j % 3 == 0))
+            c = rand_cfg(rng, kind, small_store=(j % 3 == 0), skew={1: "space_ahead", 2: "time_ahead"}.get(j % 4) if kind == "nonstatio" else None)
             c["start"], c["every"] = grid[(j * 7 + KINDS.index(kind) * 3) % len(grid)] if tier == "quick" else grid[j % len(grid)]
             cfgs.append(c)
     for cid, cfg in enumerate(cfgs):
